@@ -71,9 +71,9 @@ impl DatagramLightweight
 impl FromMessage<silencer::FixedUpdateRate> for autd3_driver::datagram::FixedUpdateRate {
     fn from_msg(msg: silencer::FixedUpdateRate) -> Result<Self, AUTDProtoBufError> {
         Ok(autd3_driver::datagram::FixedUpdateRate {
-            intensity: NonZeroU16::new(msg.value_intensity as _)
+            intensity: NonZeroU16::new(u16::try_from(msg.value_intensity)?)
                 .ok_or(AUTDProtoBufError::DataParseError)?,
-            phase: NonZeroU16::new(msg.value_phase as _)
+            phase: NonZeroU16::new(u16::try_from(msg.value_phase)?)
                 .ok_or(AUTDProtoBufError::DataParseError)?,
         })
     }
